@@ -1,0 +1,65 @@
+//! Verification hook (cargo feature `verif-hooks`): read-only access to the analysis results.
+
+use super::{analyze, Info};
+use crate::parse::ExprTree;
+use crate::{Expr, Result};
+use alloc::vec::Vec;
+
+/// The static facts the analysis computed for one node of the expression tree, mirroring the
+/// private `Info` node for node (children in the same order).
+#[derive(Debug, Clone, PartialEq, Eq)]
+pub struct VerifFacts {
+    /// Name of the `Expr` variant of this node
+    pub kind: &'static str,
+    /// Minimum number of characters the node can match
+    pub min_size: usize,
+    /// Whether every match of the node has exactly `min_size` characters
+    pub const_size: bool,
+    /// Whether the node needs the backtracking VM
+    pub hard: bool,
+    /// Number of the first group at or after the start of this node
+    pub start_group: usize,
+    /// Number of the first group after this node
+    pub end_group: usize,
+    /// Facts of the child nodes
+    pub children: Vec<VerifFacts>,
+}
+
+fn kind(expr: &Expr) -> &'static str {
+    match expr {
+        Expr::Empty => "Empty",
+        Expr::Any { .. } => "Any",
+        Expr::Assertion(_) => "Assertion",
+        Expr::Literal { .. } => "Literal",
+        Expr::Concat(_) => "Concat",
+        Expr::Alt(_) => "Alt",
+        Expr::Group(_) => "Group",
+        Expr::LookAround(..) => "LookAround",
+        Expr::Repeat { .. } => "Repeat",
+        Expr::Delegate { .. } => "Delegate",
+        Expr::Backref(_) => "Backref",
+        Expr::AtomicGroup(_) => "AtomicGroup",
+        Expr::KeepOut => "KeepOut",
+        Expr::ContinueFromPreviousMatchEnd => "ContinueFromPreviousMatchEnd",
+        Expr::BackrefExistsCondition(_) => "BackrefExistsCondition",
+        Expr::Conditional { .. } => "Conditional",
+        Expr::SubroutineCall(_) => "SubroutineCall",
+    }
+}
+
+fn facts(info: &Info<'_>) -> VerifFacts {
+    VerifFacts {
+        kind: kind(info.expr),
+        min_size: info.min_size,
+        const_size: info.const_size,
+        hard: info.hard,
+        start_group: info.start_group,
+        end_group: info.end_group,
+        children: info.children.iter().map(facts).collect(),
+    }
+}
+
+/// Analyze `tree` and return the facts of every node.
+pub fn verif_facts(tree: &ExprTree) -> Result<VerifFacts> {
+    analyze(tree).map(|info| facts(&info))
+}
